@@ -72,6 +72,17 @@ def gen_scalar_all(rng, tier, fams=None):
                     continue
                 ops.append(f"{f}.all {hx(v)}")
     ops.append("align 0")
+    # the decoders' inputs start k bytes before a page boundary (k = 1..9): every encoding longer than k straddles it
+    edge = [v for v in BOUNDS if v < 300 or v >= (1 << 14)]
+    for k in range(1, 10):
+        ops.append(f"place {k}")
+        use = edge if tier != "quick" else [v for v in edge if rng.random() < 0.35 or v >= (1 << 55)]
+        for f in fams:
+            for v in use:
+                if f == "snz" and v == 0:
+                    continue
+                ops.append(f"{f}.all {hx(v)}")
+    ops.append("place 0")
     return ops
 
 
@@ -109,6 +120,16 @@ def gen_scalar_fixed(rng, tier):
                     ops.append(f"ext.fixed {hx(v)} {w}")
                     ops.append(f"extbe.fixed {hx(v)} {w}")
     ops.append("align 0")
+    for k in range(1, 9):
+        ops.append(f"place {k}")
+        for v in [x for x in BOUNDS if x >= (1 << 14) and (tier != "quick" or rng.random() < 0.3 or x >= (1 << 55))]:
+            el = ext_len(v)
+            for w in range(max(el, k), 9):
+                ops.append(f"ext.fixed {hx(v)} {w}")
+                ops.append(f"extbe.fixed {hx(v)} {w}")
+            if tagged_len(v) >= 4:
+                ops.append(f"tagged.fixed {hx(v)} {tagged_len(v)}")
+    ops.append("place 0")
     return ops
 
 
@@ -483,6 +504,28 @@ def gen_arrays(rng, tier, codecs=None):
                         ops.append(f"pfor.rt {explicit(v)} t={hx(t)}")
                 else:
                     ops.append(f"{c}.rt {explicit(v)}")
+    # the global minimum / maximum appear only AFTER a block boundary (positions 4097.., 8193..) of an array whose
+    # earlier part is already wide (spread above 2^56) or narrow: an analysis that scans in blocks and stops early,
+    # or keeps per-block statistics, reports the extremes of a prefix
+    for c in codecs:
+        if c not in ("for", "forb", "pfor", "bp64", "bp32"):
+            continue
+        maxbits = 32 if c == "bp32" else 64
+        top = (1 << maxbits) - 1
+        for n in ([4098, 4100, 8200] if tier == "quick" else [4098, 4099, 4100, 8193, 8200, 12300, 16400, 65540]):
+            for wide in (True, False):
+                if wide:
+                    body = [(1 << (maxbits - 24)) + rng.getrandbits(maxbits - 2) for _ in range(n)]
+                    body[0], body[1] = 1 << (maxbits - 24), top - (1 << 20)       # prefix already spans > 2^(maxbits-8)
+                else:
+                    body = [(1 << 20) + rng.getrandbits(10) for _ in range(n)]
+                late = rng.choice([n - 1, n - 2, 4097 if n > 4098 else n - 1, n - 3])
+                body[late] = rng.choice([0, 7])
+                body[n - 1 if late != n - 1 else n - 2] = top - rng.choice([0, 3])
+                if c == "pfor":
+                    ops.append(f"pfor.rt {explicit(body)} t={hx(rng.choice([0x5f, 0x64]))}")
+                else:
+                    ops.append(f"{c}.rt {explicit(body)}")
     # run lengths straddling the tagged-length boundaries, as first, interior and last run
     for c in ("rle", "rleh"):
         if c in codecs:
@@ -687,6 +730,44 @@ def gen_packed(rng, tier):
                     steps.append(f"del:{hx(ln)}:{hx(off)}")
                     ln -= 1
             ops.append(f"packed.hist b={hx(b)} s={hx(S)} v={var} n={hx(n)} init={rng.choice(['0', 'f'])} " + " ".join(steps))
+    # D: LONG arrays (1030 .. 4300 elements): positional delete / insert whose moved tail is just below, at and
+    # above 1024 / 2048 / 4096 elements (a tail moved in blocks has seams there), on random contents; and a long sorted
+    # array built by sorted insertion, then delete-member / membership at both ends and in the middle
+    fixed = [(12, 32, "d"), (3, 8, "d"), (32, 32, "d"), (7, 64, "d"), (12, 8, "c"), (17, 16, "d"), (1, 8, "d")]
+    insts = [i for i in fixed if i in packed_insts()]
+    if tier != "quick":
+        insts += rng.sample([i for i in packed_insts() if i[2] != "p"], 12)
+    for (b, S, var) in insts:
+        for ln0 in ([1030, 2100, 4300] if tier == "quick" else [1026, 1030, 2049, 2100, 3000, 4097, 4300]):
+            n = (ln0 + 8) * b // S + 2
+            ln = ln0
+            steps = []
+            for tail in (1023, 1024, 1025, 1026, 2047, 2048, 2049, 4096, 4097, ln0 - 1, ln0 // 2, 0, 1):
+                if tail < ln:
+                    steps.append(f"del:{hx(ln)}:{hx(ln - 1 - tail)}")
+                    ln -= 1
+                    steps.append(f"ins:{hx(ln)}:{hx(ln - tail if tail <= ln else 0)}:{hx(rng.getrandbits(b))}")
+                    ln += 1
+            ops.append(f"packed.hist b={hx(b)} s={hx(S)} v={var} n={hx(n)} init=r{hx(rng.getrandbits(60))} " + " ".join(steps))
+        if b >= 12:
+            ln0 = 1100 if tier == "quick" else 2300
+            n = (ln0 + 8) * b // S + 2
+            arr = []
+            steps = []
+            import bisect
+            vals = sorted(rng.sample(range(1 << b), ln0)) if (1 << b) > 4 * ln0 else [rng.getrandbits(b) for _ in range(ln0)]
+            rng.shuffle(vals)
+            for v in vals:
+                steps.append(f"inss:{hx(len(arr))}:{hx(v)}")
+                arr.insert(bisect.bisect_left(arr, v), v)
+            for pos in (0, 1, 30, len(arr) - 1026, len(arr) - 1025, len(arr) // 2, len(arr) - 2):
+                if 0 <= pos < len(arr):
+                    v = arr[pos]
+                    steps.append(f"mem:{hx(len(arr))}:{hx(v)}")
+                    steps.append(f"delm:{hx(len(arr))}:{hx(v)}")
+                    arr.remove(v)
+                    steps.append(f"bs:{hx(len(arr))}:{hx(v)}")
+            ops.append(f"packed.hist b={hx(b)} s={hx(S)} v={var} n={hx(n)} init=0 " + " ".join(steps))
     return ops
 
 
@@ -831,6 +912,15 @@ def gen_dim(rng, tier):
             ops.append(f"dim.far rows=2 cols={hx(cols)} w=1")
         if cols <= (1 << 31):
             ops.append(f"dim.far rows=3 cols={hx(cols)} w={rng.choice([2, 3, 4, 8])}")
+    # headers longer than one machine word (rows width + cols width > 8 bytes, up to 16): the row count is only a
+    # header field, rows 1..3 are touched
+    for wr, wc in [(7, 2), (8, 1), (8, 2), (5, 4), (6, 3), (4, 5), (8, 4), (7, 3), (2, 7), (1, 8), (8, 8)]:
+        rows = (1 << (8 * (wr - 1))) + rng.getrandbits(8 * (wr - 1))
+        cols = (1 << (8 * (wc - 1))) + (rng.getrandbits(8 * (wc - 1)) if wc > 1 else rng.randrange(1, 255))
+        if wc >= 5:
+            cols = (1 << (8 * (wc - 1))) + rng.randrange(1, 1000)
+        for w in ([0, rng.choice([1, 3, 8])] if cols < (1 << 31) else [0]):
+            ops.append(f"dim.far rows={hx(rows)} cols={hx(cols)} w={w} tall=1")
     # matrices
     n = 150 if tier == "quick" else 3000
     for _ in range(n):
